@@ -174,6 +174,20 @@ CLAIMS["C04"] = dict(
               "postcondition of the whole block pass, not within reach), that nothing is left open at the end of the document, that a "
               "new-list-item token appears directly inside its list, link/image nesting, and the stacks kept by rules and generators.")
 
+CLAIMS["C08"] = dict(
+    text="Proof of what a fix is allowed to touch (a fragment of the property): the fix vocabulary is closed -- every (rule, token field) a "
+         "rule can pass to register_fix_token_request, the field name resolved through locals, parameters and queued Fixer records, is in "
+         "the whitelist specs/fix_vocabulary.json, and token ranges are replaced only by MD012/MD031/MD046 (one structural obligation "
+         "per call site); the replacement splice __apply_replacement_fix keeps every token before and after the replaced range exactly "
+         "once and in order, moves the line number of exactly the tokens after the range by (lines of the replacement - lines replaced) "
+         "and moves every pragma line below the range by the same amount while every other pragma stays, none lost or overwritten (loop "
+         "invariants, no bound; D12 fixed); adjust_line_number / adjust_pragma_line_number change only what they name; every character "
+         "the regenerator deletes from its output is reserved by the parser (fails: known finding D6).",
+    note=TB + "Known finding D6 (thorn / U+8268 / U+8269 deleted by any token-level fix). NOT covered: that editing a style field "
+              "preserves the parse (indent_level ...), the regenerator itself, that the value a rule writes into a text-carrying field "
+              "equals the old text up to whitespace, _modify_token of the 14 token classes, the line pass write-back (C10 covers who "
+              "writes when). Meaning preservation of the whole pipeline is not decided by this check.")
+
 NA = {
     "C01": "totality of the ~60 kLoC parser is a postcondition of TokenizedMarkdown.transform; no contract chain within reach without a Python deductive verifier (DESIGN.md 7)",
     "C02": "round-trip of parser + 5 kLoC regenerator needs the token stream specified as an encoding of the document (C03+C04+C05 in full) first (DESIGN.md 7)",
